@@ -257,10 +257,20 @@ def scan_sources():
     return problems
 
 
+def _big_stack():
+    # coqc overflows the default 8 MB stack on large case literals
+    import resource
+    try:
+        soft, hard = resource.getrlimit(resource.RLIMIT_STACK)
+        resource.setrlimit(resource.RLIMIT_STACK, (hard, hard))
+    except Exception:
+        pass
+
+
 def run(cmd, timeout, cwd=None, env=None):
     try:
         p = subprocess.run(cmd, cwd=cwd, env=env, stdout=subprocess.PIPE, stderr=subprocess.STDOUT,
-                           timeout=timeout, text=True)
+                           timeout=timeout, text=True, preexec_fn=_big_stack)
         return p.returncode, p.stdout
     except subprocess.TimeoutExpired as e:
         out = e.stdout if isinstance(e.stdout, str) else (e.stdout or b"").decode(errors="replace")
